@@ -32,7 +32,8 @@ func DrawCase(t *rapid.T, o gen.GenOpts) *drive.Case {
 	for _, v := range gen.BoolVars {
 		c.Vars[v] = rapid.Bool().Draw(t, v)
 	}
-	lw := gen.Lower(blk)
+	c.IDStyle = rapid.SampledFrom([]int{0, 0, 1, 2, 3}).Draw(t, "idStyle")
+	lw := gen.LowerStyle(blk, c.IDStyle)
 	lw.G.AllNodes(func(n *gen.Node, _ *gen.Graph) {
 		if n.Kind != gen.KTask {
 			return
